@@ -340,32 +340,41 @@ pub fn self_exe() -> std::path::PathBuf {
 }
 
 pub fn run_child(args: &[String], timeout_s: u64) -> Option<String> {
+    use std::io::Read;
     let mut child = Command::new(self_exe())
         .args(args)
         .stdout(std::process::Stdio::piped())
         .stderr(std::process::Stdio::null())
         .spawn()
         .ok()?;
+    // drain stdout while the child runs: a line longer than the pipe buffer would block it for ever
+    let mut pipe = child.stdout.take()?;
+    let reader = std::thread::spawn(move || {
+        let mut buf = Vec::new();
+        let _ = pipe.read_to_end(&mut buf);
+        buf
+    });
     let start = std::time::Instant::now();
-    loop {
+    let status = loop {
         match child.try_wait() {
-            Ok(Some(_)) => break,
+            Ok(Some(st)) => break st,
             Ok(None) => {
                 if start.elapsed().as_secs() > timeout_s {
                     let _ = child.kill();
                     let _ = child.wait();
+                    let _ = reader.join();
                     return Some("TIMEOUT".to_string());
                 }
                 std::thread::sleep(std::time::Duration::from_millis(2));
             }
             Err(_) => return None,
         }
+    };
+    let stdout = reader.join().ok()?;
+    if !status.success() && stdout.is_empty() {
+        return Some(format!("CHILD-DIED status={:?}", status.code()));
     }
-    let out = child.wait_with_output().ok()?;
-    if !out.status.success() && out.stdout.is_empty() {
-        return Some(format!("CHILD-DIED status={:?}", out.status.code()));
-    }
-    Some(String::from_utf8_lossy(&out.stdout).trim().to_string())
+    Some(String::from_utf8_lossy(&stdout).trim().to_string())
 }
 
 /// Probe `image` (left untouched: the probe runs on a copy). Returns (now, recsize, impl line).
